@@ -510,15 +510,14 @@ func (g *c12Gen) schema() *c12Node {
 	return root
 }
 
-// all group nodes below (and including) n in which fields may be edited (not the LIST skeleton)
+// all group nodes below (and including) n in which fields may be edited (everything but the
+// LIST skeleton `group (LIST) { repeated group list { element } }`)
 func c12Groups(n *c12Node, out *[]*c12Node) {
 	if n.kind >= 0 {
 		return
 	}
 	if !n.list && n.name != "list" {
 		*out = append(*out, n)
-	} else if n.name == "list" && n.fields[0].kind < 0 && !n.fields[0].list {
-		// the element group of a list is editable
 	}
 	for _, f := range n.fields {
 		c12Groups(f, out)
